@@ -1,2 +1,65 @@
-(* C18 - theorems follow in this commit series *)
-From TW Require Import Bytes.
+(* C18 - templates are addressable by relative name; a bad file fails loading cleanly.
+   Model/Api.v mirrors findTextwireFiles, nameFromPath, parsePrograms (files.go, parser_utils.go,
+   textwire.go) over an abstract file system; the harness writes the same tree to disk. *)
+From Coq Require Import String.
+From TW Require Import Bytes Values Ast Builtins Eval Render Api Loading.
+Open Scope N_scope.
+
+Theorem C18_name_is_the_relative_path_without_extension dir ext name :
+  trim_suffix ext (trim_prefix (dir ++ [47]) ((dir ++ [47]) ++ name ++ ext)) = name.
+Proof. exact (name_of_file dir ext name). Qed.
+Print Assumptions C18_name_is_the_relative_path_without_extension.
+
+Theorem C18_distinct_files_have_distinct_names dir ext n1 n2 :
+  trim_suffix ext (trim_prefix (dir ++ [47]) ((dir ++ [47]) ++ n1 ++ ext)) =
+  trim_suffix ext (trim_prefix (dir ++ [47]) ((dir ++ [47]) ++ n2 ++ ext)) -> n1 = n2.
+Proof. exact (names_are_injective dir ext n1 n2). Qed.
+Print Assumptions C18_distinct_files_have_distinct_names.
+
+Theorem C18_exactly_the_files_with_the_extension_are_loaded fs cfg l :
+  walk_files fs cfg = LOk l -> map snd l = map fst (filter (is_template_file cfg) fs).
+Proof. exact (found_files_are_exactly_the_template_files fs cfg l). Qed.
+Print Assumptions C18_exactly_the_files_with_the_extension_are_loaded.
+
+Theorem C18_found_files_end_in_the_extension fs cfg l name rel :
+  walk_files fs cfg = LOk l -> In (name, rel) l ->
+  (exists t, rel = t ++ c_ext cfg) /\
+  (bytes_eqb (c_dir cfg) dot = false -> exists t, rel = (c_dir cfg ++ [47]) ++ t) /\
+  name = trim_suffix (c_ext cfg) (trim_prefix (c_dir cfg ++ [47]) rel).
+Proof. exact (found_file_has_extension_and_lives_under_dir fs cfg l name rel). Qed.
+Print Assumptions C18_found_files_end_in_the_extension.
+
+Theorem C18_one_faulty_file_fails_the_whole_load fs cfg files name rel e :
+  In (name, rel) files -> load_page fs cfg rel = LErr e -> forall tpl, load_all fs cfg files <> LOk tpl.
+Proof. exact (one_faulty_file_fails_the_load fs cfg files name rel e). Qed.
+Print Assumptions C18_one_faulty_file_fails_the_whole_load.
+
+Theorem C18_the_error_is_the_first_faulty_files fs cfg good name rel rest e :
+  (forall n r, In (n, r) good -> exists pg, load_page fs cfg r = LOk pg) ->
+  load_page fs cfg rel = LErr e ->
+  load_all fs cfg (good ++ (name, rel) :: rest) = LErr e.
+Proof. exact (load_reports_first_fault fs cfg good name rel rest e). Qed.
+Print Assumptions C18_the_error_is_the_first_faulty_files.
+
+Theorem C18_layouts_are_not_registered fs cfg name rel pg rest tpl :
+  load_page fs cfg rel = LOk pg -> snd pg = true ->
+  load_all fs cfg ((name, rel) :: rest) = LOk tpl -> load_all fs cfg rest = LOk tpl.
+Proof. exact (layout_is_not_registered fs cfg name rel pg rest tpl). Qed.
+Print Assumptions C18_layouts_are_not_registered.
+
+Theorem C18_unknown_name_is_not_found cx cfg tpl name data en :
+  env_from_map data = EnvOk en -> alookup name tpl = None ->
+  template_string cx cfg tpl name data = StrErr (mkErr 0 (template_path cfg name) (fmt ErrTemplateNotFound [])).
+Proof. exact (unknown_name_not_found cx cfg tpl name data en). Qed.
+Print Assumptions C18_unknown_name_is_not_found.
+
+Theorem C18_evaluating_a_file_is_evaluating_its_content fs st rel data content :
+  read_file fs rel = ReadOk content ->
+  snd (step fs st (OpEvalFile rel data)) = snd (step fs st (OpEvalStr content data)).
+Proof. exact (evalfile_is_evalstring fs st rel data content). Qed.
+Print Assumptions C18_evaluating_a_file_is_evaluating_its_content.
+
+Example C18_example :
+  trim_suffix (bs ".tw") (trim_prefix (bs "x.tw/") (bs "x.tw/a.tw.bak.tw")) = bs "a.tw.bak" /\
+  has_suffix (bs ".tw") (bs "notes.twx") = false.
+Proof. exact name_example. Qed.
